@@ -9,6 +9,7 @@ class Inv:
         self.cfg = cfg or {}     # {slot: value} overrides of the configuration vector
         self.dids = None         # None = the shared tables of callreg_ext
         self.ios = None
+        self.echo = None         # offsets in `positive` that echo request parameters (C03); None = [1] for services with a subfunction
 
 
 def invocations():
@@ -24,4 +25,45 @@ def invocations():
         Inv('ecu_reset(4)', 7, [4], [], 0x11, b'\x51\x04\x0a'),
     ]
     from harness import callreg_ext
-    return L + callreg_ext.invocations(Inv)
+    L = L + callreg_ext.invocations(Inv)
+    for i in L:
+        if i.echo is None:
+            i.echo = ECHO.get(i.name, [1] if i.has_sub else [])
+    return L
+
+
+# offsets, in the registry's positive response, of the bytes that echo a request parameter
+ECHO = {
+    'send_request(ReadDataByIdentifier raw)': [],
+    'routine_control': [1, 2, 3],
+    'transfer_data': [1],
+    'write_memory_by_address': [1, 2, 3, 4],
+    'write_memory_by_address(48-bit)': [1, 2, 3, 4, 5, 6, 7, 8],
+    'dynamically_define_did(by did)': [1, 2, 3],
+    'dynamically_define_did(by memory)': [1, 2, 3],
+    'clear_dynamically_defined_did': [1, 2, 3],
+    'clear_all_dynamically_defined_did': [1],
+    'read_data_by_identifier': [1, 2, 6, 7],
+    'read_data_by_identifier(read-all last)': [1, 2, 5, 6],
+    'read_data_by_identifier_first': [1, 2, 4, 5],
+    'write_data_by_identifier': [1, 2],
+    'io_control(values, masks)': [1, 2, 3],
+    'io_control(no control param)': [1, 2],
+    'io_control(bool mask)': [1, 2, 3],
+    'add_file': [1, 5],
+    'send_request(TesterPresent)': [],
+    'delete_file': [1],
+    'read_file': [1, 4],
+    'read_dir': [1],
+    'resume_file': [1, 4],
+    'get_user_defined_memory_dtc_by_status_mask': [1, 2],
+    'get_dtc_snapshot_by_dtc_number': [1, 2, 3, 4, 6],
+    'get_user_defined_dtc_snapshot_by_dtc_number': [1, 2, 3, 4, 5],
+    'get_dtc_snapshot_by_record_number': [1, 2],
+    'get_dtc_extended_data_by_dtc_number': [1, 6],
+    'get_mirrormemory_dtc_extended_data_by_dtc_number': [1],
+    'get_user_defined_dtc_extended_data_by_dtc_number': [1, 2, 7],
+    'get_dtc_extended_data_by_record_number': [1, 2],
+    'get_wwh_obd_dtc_by_status_mask': [1, 2],
+    'get_wwh_obd_dtc_with_permanent_status': [1, 2],
+}
